@@ -10,7 +10,8 @@ let () =
     | "NETENG" ->
       (* the question here is isolation only: the model evaluates the rows of network A alone; the implementation
          runs with a shadow network present.  A different answer means the other network influenced it. *)
-      (fun i o -> let (m, _) = Enginesuite.run i o in
+      (fun i o -> let (m, v) = Enginesuite.run i o in
+        if String.length i >= 5 && String.sub i 0 5 = "enet " then (m, v) else
         if m = "-" || (String.length m >= 4 && String.sub m 0 4 = "SKIP") then (m, "na")
         else (m, if m = o then "pass" else "fail:answer-differs-from-the-answer-computed-on-this-network's-rows-alone"))
     | "TRANSPORT" -> Transportsuite.run
